@@ -42,3 +42,10 @@ let str_of_hexbytes (s : string) : n list =
   List.init (String.length s / 2) (fun i -> n_of_int (int_of_string ("0x" ^ String.sub s (2*i) 2)))
 let hexbytes_of_str (l : n list) : string =
   if l = [] then "-" else String.concat "" (List.map (fun b -> Printf.sprintf "%02x" (int_of_n b)) l)
+
+(* arbitrary-size decimal numbers (u64 times do not fit OCaml's int) *)
+let n10 = n_of_int 10
+let n_of_dec (s : string) : n =
+  let acc = ref N0 in
+  String.iter (fun c -> acc := N.add (N.mul !acc n10) (n_of_int (Char.code c - 48))) s;
+  !acc
